@@ -65,7 +65,7 @@ def compare_values(out, spec, run, ref):
 def execute(st, ctx):
     out = Outcome()
     ch = st.scenario
-    cfg = draw_cfg(ch)
+    cfg = draw_cfg(ch, huge=True)
     sim = new_sim(st)
     ntenants = 1 + ch.weighted([6, 3, 1])
     tenants = []
